@@ -39,6 +39,9 @@ def gate_matrix(b):
         return U.conj().T if b.get("dag") else U
     if g in qspec.ROT1 + qspec.ROT2:
         return tk_unitary(g, a[0])
+    if g == "Q":
+        U = qspec.custom_matrix(*a)
+        return U.conj().T if b.get("dag") else U
     if g == "C":
         inner = gate_matrix(a[0])
         out = np.eye(4, dtype=complex)
